@@ -19,7 +19,7 @@ import json
 import threading
 from typing import Any, Dict, List, Tuple
 
-from .. import core, orderdep, serialisers, wiregen, workers
+from .. import core, orderdep, probes, serialisers, wiregen, workers
 from ..workers import dec, enc
 from . import c09
 
@@ -27,6 +27,9 @@ HANDLER = "vf.serialisers:child_handle"
 CONFIGS = c09.CONFIGS
 AUDIT_MOD = 7
 MAX_STORED_PER_SIG = 4
+from ..modelops import DUMP_CALLS as _DC  # noqa: E402
+
+modelops_calls = [n for n, _, _ in _DC]
 
 
 def site_name(site: str) -> str:
@@ -189,6 +192,16 @@ def run(tier: str, only=None) -> core.Result:
 
     b_thread = threading.Thread(target=drive_b)
     b_thread.start()
+    # object probes in fresh pools of their own (background): reading does not change; order of dump calls per class
+    pr_meta: Dict[str, List[Dict[str, Any]]] = {}
+    pr_join = do_join = None
+    if do_a:
+        pr_meta = {"methods": probes.methods_cases(a_cases), "dumporder": probes.dumporder_cases(a_cases)}
+        pr_join = probes.start(HANDLER, CONFIGS, {"methods": [{"op": "methods", "target": c["target"], "wire": enc(c["wire"])}
+                                                              for c in pr_meta["methods"]]}, n_each=2)
+        # the dump-order sequences are forked from workers that never validate or dump anything themselves
+        do_join = probes.start(HANDLER, CONFIGS, {"dumporder": [{"op": "dumporder", "target": c["target"], "wires": c["wires"],
+                                                                 "calls": c["calls"]} for c in pr_meta["dumporder"]]}, n_each=3)
     im_cases = c09.inputmut_cases(tier, a_cases) if do_a else []
     im_join = c09.start_inputmut(HANDLER, im_cases) if im_cases else None
     pools = start_pools(workers.per_config_workers(len(CONFIGS)))
@@ -446,6 +459,68 @@ def run(tier: str, only=None) -> core.Result:
                        f"afterwards under {backend} ({ch['via']} differs at '{ch['path']}')",
                        {"part": "libedit", "scenario": lc["scenario"], "params": lc["params"]})
 
+    # ---- reading an object must not change what it dumps to; the order of dump calls must not matter ----
+    pr_info: Dict[str, Any] = {"method_probe_objects": 0, "methods_called": 0, "dump_order_sequences": 0,
+                               "dump_calls_compared_with_a_fresh_process": 0, "violations": 0}
+    pr_audit = {"reasked": 0}
+    if pr_join is not None:
+        try:
+            m_ans, m_aud, _h = pr_join()
+            d_ans, d_aud, _h2 = do_join()
+        except RuntimeError as e:
+            res.harness_errors.append(str(e))
+            m_ans = None
+        if m_ans is not None:
+            for n_, g_, a_ in m_aud + d_aud:
+                pr_audit["reasked"] += a_["reasked"]
+                if a_["mismatches"]:
+                    res.harness_errors.append(f"nondeterministic {g_} probe answer of the {n_} worker (case #{a_['first_mismatch_index']})")
+            for i, c in enumerate(pr_meta["methods"]):
+                model = "parse_message" if c["target"] == "parse_message" else wiregen.short(c["target"])
+                if c["target"] != "parse_message" and wiregen.is_config_class(wiregen.resolve(c["target"])):
+                    continue
+                by = {n: m_ans["methods"][n][i] for n in m_ans["methods"]}
+                pr_info["method_probe_objects"] += 1
+                changed = {n: a for n, a in by.items() if a.get("ok") and a.get("changed")}
+                pr_info["methods_called"] += sum(len(a.get("called", [])) for a in by.values())
+                if changed:
+                    backend = "both" if len(changed) == 2 else next(iter(changed))
+                    a = next(iter(changed.values()))
+                    pr_info["violations"] += 1
+                    report({"class": "reading-the-object-changes-its-dump", "backend": backend, "model": model, "call": a.get("culprit")},
+                           f"{model} <- {json.dumps(c['wire'], ensure_ascii=True)[:200]}: after calling the public zero-argument methods / "
+                           f"properties of the object ({len(a.get('called', []))} calls) its dump differs at '{a['changed']['path']}' "
+                           f"({a['changed']['via']}) under {backend}; first call that does it: {a.get('culprit')}",
+                           {"part": "probe", "case": {"op": "methods", "target": c["target"], "wire": enc(c["wire"])}})
+            for n in d_ans["dumporder"]:
+                refs: Dict[Tuple[str, int], Any] = {}
+                for c, a in zip(pr_meta["dumporder"], d_ans["dumporder"][n]):
+                    if c["reference"] and isinstance(a, list):
+                        refs[(c["target"], c["calls"][0][1])] = a[0]
+                for c, a in zip(pr_meta["dumporder"], d_ans["dumporder"][n]):
+                    if isinstance(a, dict) and "harness_exc" in a:
+                        res.harness_errors.append(f"worker exception (dump order) on {c['target']}: {a['harness_exc'][-300:]}")
+                        continue
+                    if c["reference"] or wiregen.is_config_class(wiregen.resolve(c["target"])):
+                        continue
+                    pr_info["dump_order_sequences"] += 1
+                    (o1, c1), (o2, c2) = c["calls"]
+                    want, got = refs.get((c["target"], c2)), a[1] if len(a) > 1 else {"exc": "missing"}
+                    pr_info["dump_calls_compared_with_a_fresh_process"] += 1
+                    if want is not None and workers.line(want) != workers.line(got):
+                        pr_info["violations"] += 1
+                        first, then = modelops_calls[c1], modelops_calls[c2]
+                        lost = (got.get("lossless") or [{}])[0]
+                        report({"class": "dump-depends-on-earlier-dumps", "backend": n, "model": wiregen.short(c["target"]),
+                                "call": then, "after": first},
+                               f"{wiregen.short(c['target'])} <- {json.dumps(dec(c['wires'][1]), ensure_ascii=True)[:200]}: under {n}, in a "
+                               f"fresh process whose first dump of this class was {first} (of another object), {then} gives "
+                               f"{json.dumps(dec(got['value']), ensure_ascii=True)[:200] if 'value' in got else got}; made first in a fresh "
+                               f"process it gives {json.dumps(dec(want['value']), ensure_ascii=True)[:200] if 'value' in want else want}"
+                               + (f"; losslessness: {lost.get('kind')} at '{lost.get('path')}'" if lost else ""),
+                               {"part": "probe", "case": {"op": "dumporder", "target": c["target"], "wires": c["wires"], "calls": c["calls"]},
+                                "reference": {"op": "dumporder", "target": c["target"], "wires": c["wires"], "calls": [[1, c2]]}})
+
     # ---- order of validation made explicit: ordered pairs of same-named classes, fresh workers ----
     pair_info: Dict[str, Any] = {"groups": {}, "ordered_pairs": 0, "answers_compared_with_alone": 0, "differences": 0}
     if do_a:
@@ -548,11 +623,12 @@ def run(tier: str, only=None) -> core.Result:
     cov["part_B"] = {"serialisers_discovered": len(parent_sites), "variants_driven": variants_total,
                      "distinct_site_variants": len(b_distinct), "sites": site_table, "alias_pairs": alias_pairs}
     cov["violation_signatures"] = dict(sorted(sig_count.items()))
-    cov["audit_reasked"] = audit_total + im_audit["reasked"]
+    cov["audit_reasked"] = audit_total + im_audit["reasked"] + pr_audit["reasked"]
     cov["audit_mismatches"] = audit_bad
     cov["audit_mismatches_explained_as_order_dependence"] = audit_order
     cov["same_name_pair_order"] = pair_info
     cov["input_mutated_after_validation"] = im_info
+    cov["object_probes"] = pr_info
     cov["mutation_isolation"] = iso_info
     cov["configurations"] = {n: {k: v for k, v in h.items() if k in ("PYDANTIC_AVAILABLE", "MCP_FORCE_FALLBACK", "base_module_of_models")}
                              for n, h in hello.items()}
@@ -580,6 +656,8 @@ def run(tier: str, only=None) -> core.Result:
         "numbers are compared by value (1 and 1.0 are the same JSON number); everything else exactly",
         "an object the fallback backend rejects although Pydantic accepts it is a backend disagreement (C09) and only counted here (fallback_only_losses_deferred_to_C09 / rejected-by-fallback); losses under either backend are reported here",
         "transport parameter classes (chuk_mcp.transports.*) are local configuration, not protocol models: driven, differences listed under unjudged_config_class_differences",
+        "a null inside a free-form value (tool arguments, schemas, _meta, unknown object members) is data and must come back as null; only null-valued members OF A MODEL (declared or unknown, as Pydantic's exclude_none treats them) may be missing from the exclude_none view",
+        "order of dump calls: per class every ordered pair of two different dump calls (model_dump / model_dump_json, plain / by-alias) on two objects, each pair in a process forked for it from a worker that never validates or dumps; the second call must give what it gives when made first",
         "input mutated after validation: judged absolutely only at declared containers (the object itself, nested models, members declared List[...] / Dict[...] / dict and declared items of such lists); inside free-form values (Any, values of Dict[str, Any], unknown members) both backends keep the caller's objects - counted, not judged (C09 demands that the backends agree there)",
         "mutation isolation: every validation is given its own freshly decoded wire object, so an object shared by two results cannot come from the input; immutable values (str, int, None, tuple) may be shared; the in-place mutations are undone after each case",
         "the JSON path is json.loads(model_dump_json(by_alias=True, exclude_none=True)) parsed with the standard library",
@@ -595,6 +673,21 @@ def replay_case(args: Dict[str, Any]) -> Dict[str, Any]:
 
     logging.disable(logging.CRITICAL)
     wiregen.discover()
+    if args["part"] == "probe":
+        viol = []
+        ans = {}
+        for cfg in CONFIGS:
+            a = workers.fresh_sequence(cfg, HANDLER, [args["case"]])[0]
+            ans[cfg["name"]] = a
+            if args["case"]["op"] == "methods" and a.get("changed"):
+                viol.append({"sig": {"class": "reading-the-object-changes-its-dump", "backend": cfg["name"], "call": a.get("culprit")},
+                             "msg": str(a["changed"])})
+            if args["case"]["op"] == "dumporder":
+                ref = workers.fresh_sequence(cfg, HANDLER, [args["reference"]])[0]
+                if workers.line(ref[0]) != workers.line(a[-1]):
+                    viol.append({"sig": {"class": "dump-depends-on-earlier-dumps", "backend": cfg["name"]},
+                                 "msg": orderdep.first_difference(ref[0], a[-1])})
+        return {"part": "probe", "answers": ans, "violations": viol}
     if args["part"] in ("inputmut", "libedit"):
         x = {"op": "libedit", "scenario": args["scenario"], "params": args["params"]} if args["part"] == "libedit" else \
             {"op": "inputmut", "target": args["target"], "wire": args["wire"]}
